@@ -31,7 +31,7 @@ def paths(max_depth):
 
 def _cases(tier):
     leaves = list(LEAVES) if tier != "quick" else ["IntString", "BooleanString", "IsoDateString", "int"]
-    for p in paths(3):
+    for p in paths(3 if tier == "quick" else 4):
         for leaf in leaves:
             for variant in ("plain", "empty_containers", "absent", "two_values"):
                 if variant == "absent" and (not p or p[0] != "O"):
@@ -203,10 +203,10 @@ def execute(case):
 
 def run(tier, seed):
     r = core.Run(PROP, tier, seed)
-    r.rule = ("all 31 annotation paths over {O,L,D} of depth <=3 without O.O (+ the empty path) x leaves (4 quick / 7 thorough) x variants {plain, "
+    r.rule = ("all annotation paths over {O,L,D} of depth <=3 (quick: 34 paths) / <=4 (thorough: 94 paths) without O.O, incl. the empty path x leaves (4 quick / 7 thorough) x variants {plain, "
               "empty container at each level, absent field, second value} x {attrs, dataclasses} x converters on/off x meta on/off; "
               "non-trivial = non-empty paths")
-    r.bounds = {"tier": tier, "paths": len(paths(3))}
+    r.bounds = {"tier": tier, "paths": len(paths(3 if tier == "quick" else 4)), "max_depth": 3 if tier == "quick" else 4}
     r.assumptions = ["converters off under attrs: the per-field converter form is judged for integer and float strings only (statement)",
                      "mappings are induced through dict_keys_regex k\\d"]
     for case, res in core.pmap(execute, _cases(tier), chunksize=4, budget_s=240 if tier == "quick" else 1500):
